@@ -186,6 +186,10 @@ def judge(pid, units, tier, t0, level, coverage_extra, assumptions, relevant=Non
         for c in u.get('crashes', []):
             # a dead or hung process is a violation of C11 (every call returns) and of the property the scenario
             # exercises; for any other property the run is incomplete: no verdict
+            if not c.get('scenario'):
+                # no scenario to attribute it to (the process never got to one): nothing to replay, not a verdict
+                tool.append('the harness process died (rc=%s) outside any scenario: %s' % (c.get('rc'), (c.get('stderr') or '')[-500:]))
+                continue
             try:
                 sc = json.loads(c.get('scenario') or '{}')
                 tg = set(sc.get('tags', []))
@@ -670,7 +674,14 @@ def check_c19(tier, t0):
                 continue
             scs.append(scen.z_build(r, 'zs%d-%d' % (n, k), str(n)))
     u = run_unit('zst-%s' % tier, scs)
+    # random histories at the extreme capacities: positions drift in both directions over 40 calls (a slip that needs a
+    # particular sequence of pushes and pops at both ends, e.g. signed arithmetic above 2^63, shows only there)
+    rnd = random.Random(seed() + 19)
+    zr = [scen.z_random(rnd, ncode, 'zrnd-%s-%d' % (ncode, k), 40) for ncode in sorted(scen.Z_BASE) + ['5', '3', '1', '0']
+          for k in range(150 if tier == 'quick' else 1500)]
+    uz = run_unit('zst-random-%s-%d' % (tier, seed()), zr)
     cov = l1_cov(stats)
+    cov['random_histories'] = {'scenarios': len(zr), 'length': 40, 'seed': seed(), 'capacities': sorted(scen.Z_BASE) + ['5', '3', '1', '0']}
     cov['states_note'] = ('l1_* = exhaustive TLC runs of spec/Ring.tla with MaxU = 7 (3-bit word) and N in {7,6,5,4,3}, where start + i really '
                           'overflows the word; every add_mod call site is checked against its preconditions and against intermediate overflow')
     cov['real_capacities'] = sorted(scen.Z_BASE)
@@ -684,7 +695,7 @@ def check_c19(tier, t0):
         core.write_evidence('C19', {'property_id': 'C19', 'tier': tier, 'seed': seed(), 'level': 'model_checking', 'coverage': dict(cov, states=1, transitions=1, traces_validated_against_impl=0),
                                     'wall_s': time.time() - t0, 'violations': 0})
         return 2
-    return judge('C19', [u], tier, t0, 'model_checking', cov, COMMON_ASSUME + [
+    return judge('C19', [u, uz], tier, t0, 'model_checking', cov, COMMON_ASSUME + [
         'the fill family and other O(N) loops are not run at the extreme capacities (as the property says)',
         'symbolic part: Apalache/Z3 decide the arithmetic lemma and the scalar inductive step for all capacities up to 2^64-1 (spec/WordArith.tla, spec/Shape.tla); they are in the trusted base for that sub-claim'])
 
